@@ -102,7 +102,12 @@ impl Drop for TokH {
         ev(format!("tokdrop {}", self.t));
         consumed(LK_TOK, self.t);
         for &c in &self.script {
-            let clo = make_clo_nocaps(c);
+            // a Drop impl has no scope of its own: captures come from the global environment
+            let mut nofr = Frame {
+                loc: Vec::new(),
+                die: false,
+            };
+            let clo = make_clo(c, &mut nofr);
             ev(format!("sub m {}", clo.guard.uid));
             match deferrer() {
                 Some(d) => d.defer(move |s| run_plain(s, clo)),
@@ -124,10 +129,11 @@ impl Drop for FwdTok {
 #[derive(Clone)]
 struct FwdH {
     f: u32,
-    to: Option<usize>, // closure spec of a to-actor forwarder
+    to: Option<(usize, u32)>, // closure spec and target actor of a to-actor forwarder
     fwd: Fwd<Msg>,
 }
 struct RetH {
+    r: u32,
     ret: Ret<u32>,
 }
 
@@ -518,10 +524,11 @@ fn log_notify(a: u32, m: &Option<StopCause>) {
 fn make_notifier(a: u32, n: &Notif, fr: &mut Frame) -> Ret<StopCause> {
     match n {
         Notif::Log => ret_do!(move |m: Option<StopCause>| log_notify(a, &m)),
-        Notif::To(hp, c) => match handle_actor(fr, *hp) {
-            Some(parent) => {
+        Notif::To(hp, c) => match handle_actor2(fr, *hp) {
+            Some((parent, pid)) => {
                 let clo = make_clo(*c, fr);
                 let uid = clo.guard.uid;
+                ev(format!("target {} {} 0", uid, pid));
                 let inner: Ret<StopCause> = ret_to!([parent], meth_cause(clo) as (StopCause));
                 Ret::new(move |m: Option<StopCause>| {
                     log_notify(a, &m);
@@ -743,11 +750,12 @@ fn do_act(act: &Act_, ctx: &mut Ctx<'_, '_>, fr: &mut Frame) {
             );
         }
         Act_::Call(h, c) => {
-            let actor = match handle_actor(fr, *h) {
+            let (actor, aid) = match handle_actor2(fr, *h) {
                 Some(a) => a,
                 None => return bad(11),
             };
             let clo = make_clo(*c, fr);
+            ev(format!("target {} {} 0", clo.guard.uid, aid));
             ev(format!("sub m {}", clo.guard.uid));
             let sp = spec(*c);
             if default_pad(&sp) {
@@ -762,6 +770,7 @@ fn do_act(act: &Act_, ctx: &mut Ctx<'_, '_>, fr: &mut Frame) {
                 None => return bad(12),
             };
             let clo = make_clo(*c, fr);
+            ev(format!("target {} {} 1", clo.guard.uid, a));
             ev(format!("sub m {}", clo.guard.uid));
             let sp = spec(*c);
             let ready = *ready;
@@ -904,21 +913,22 @@ fn do_act(act: &Act_, ctx: &mut Ctx<'_, '_>, fr: &mut Frame) {
                 ACTORS.with(|s| s.borrow_mut().insert(*a));
                 ev(format!("actor {}", a));
                 created(LK_NOTIFY, *a);
-                ev(format!("ownnew {}", a));
+                ev(format!("slabadd {} {}", st.id, a));
                 bind(*h, Handle::Act(*a, actor));
             }
             _ => bad(22),
         },
         Act_::SlabLen => match ctx {
-            Ctx::Meth(_, st) => ev(format!("num 7 {}", st.slab.len())),
+            Ctx::Meth(_, st) => ev(format!("slablen {} {}", st.id, st.slab.len())),
             _ => bad(23),
         },
-        Act_::IsZombie(h) => match handle_actor(fr, *h) {
-            Some(a) => ev(format!("bool 4 {}", a.is_zombie() as u8)),
+        Act_::IsZombie(h) => match handle_actor2(fr, *h) {
+            Some((a, aid)) => ev(format!("iszombie {} {}", aid, a.is_zombie() as u8)),
             None => bad(24),
         },
         Act_::NewRet(h, r, k) => {
             let r = *r;
+            let mut retto: Option<(u32, u8)> = None;
             let ret: Ret<u32> = match k {
                 RetK::Clos(caps, body) => {
                     let mut cv = Vec::new();
@@ -938,12 +948,14 @@ fn do_act(act: &Act_, ctx: &mut Ctx<'_, '_>, fr: &mut Frame) {
                     })
                 }
                 RetK::To(ht, c) => {
-                    let actor = match handle_actor(fr, *ht) {
+                    let (actor, aid) = match handle_actor2(fr, *ht) {
                         Some(a) => a,
                         None => return bad(25),
                     };
                     let clo = make_clo(*c, fr);
                     let uid = clo.guard.uid;
+                    ev(format!("target {} {} 0", uid, aid));
+                    retto = Some((uid, 0));
                     let inner: Ret<u32> = ret_to!([actor], meth_ret(clo) as (u32));
                     Ret::new(move |m: Option<u32>| {
                         log_ret(r, &m);
@@ -955,12 +967,14 @@ fn do_act(act: &Act_, ctx: &mut Ctx<'_, '_>, fr: &mut Frame) {
                     })
                 }
                 RetK::SomeTo(ht, c) => {
-                    let actor = match handle_actor(fr, *ht) {
+                    let (actor, aid) = match handle_actor2(fr, *ht) {
                         Some(a) => a,
                         None => return bad(25),
                     };
                     let clo = make_clo(*c, fr);
                     let uid = clo.guard.uid;
+                    ev(format!("target {} {} 0", uid, aid));
+                    retto = Some((uid, 1));
                     let inner: Ret<u32> = ret_some_to!([actor], meth_some(clo) as (u32));
                     Ret::new(move |m: Option<u32>| {
                         log_ret(r, &m);
@@ -975,15 +989,19 @@ fn do_act(act: &Act_, ctx: &mut Ctx<'_, '_>, fr: &mut Frame) {
                 }
             };
             ev(format!("retnew {}", r));
+            if let Some((uid, some)) = retto {
+                ev(format!("retto {} {} {}", r, uid, some));
+            }
             created(LK_RET, r);
-            bind(*h, Handle::Ret(RetH { ret }));
+            bind(*h, Handle::Ret(RetH { r, ret }));
         }
         Act_::RetSend(h, v) => {
             let is_ret = with_handle(fr, *h, |hv| matches!(hv, Some(Handle::Ret(_))));
             if !is_ret {
                 return bad(26);
             }
-            if let Some(Handle::Ret(RetH { ret })) = take(fr, *h) {
+            if let Some(Handle::Ret(RetH { r, ret })) = take(fr, *h) {
+                ev(format!("retsent {} {}", r, v));
                 ret!([ret], *v);
             }
         }
@@ -1013,13 +1031,13 @@ fn do_act(act: &Act_, ctx: &mut Ctx<'_, '_>, fr: &mut Frame) {
                     }
                 }
                 FwdK::To(ht, c) => {
-                    let actor = match handle_actor(fr, *ht) {
+                    let (actor, aid) = match handle_actor2(fr, *ht) {
                         Some(a) => a,
                         None => return bad(27),
                     };
                     FwdH {
                         f,
-                        to: Some(*c),
+                        to: Some((*c, aid)),
                         fwd: fwd_to!([actor], meth_fwd() as (Msg)),
                     }
                 }
@@ -1035,8 +1053,9 @@ fn do_act(act: &Act_, ctx: &mut Ctx<'_, '_>, fr: &mut Frame) {
             match fh {
                 Some(fh) => {
                     let msg = match fh.to {
-                        Some(c) => {
+                        Some((c, aid)) => {
                             let clo = make_clo_nocaps(c);
+                            ev(format!("target {} {} 0", clo.guard.uid, aid));
                             ev(format!("sub m {}", clo.guard.uid));
                             Msg {
                                 clo: Some(clo),
@@ -1065,12 +1084,15 @@ fn do_act(act: &Act_, ctx: &mut Ctx<'_, '_>, fr: &mut Frame) {
         Act_::Log(l) => {
             let id = ctx.log_id();
             match ctx.core() {
-                Some(core) => core.log(id, level_of(*l), "", format_args!("x"), |_| {}),
+                Some(core) => {
+                    ev(format!("logreq {} {}", id, l));
+                    core.log(id, level_of(*l), "", format_args!("x"), |_| {})
+                }
                 None => bad(29),
             }
         }
         Act_::LogCheck(l) => match ctx.core() {
-            Some(core) => ev(format!("bool 5 {}", core.log_check(level_of(*l)) as u8)),
+            Some(core) => ev(format!("logcheck {} {}", l, core.log_check(level_of(*l)) as u8)),
             None => bad(30),
         },
         Act_::Now => match ctx.core() {
@@ -1220,11 +1242,17 @@ fn run_case(ops: &[Top]) {
                 Top::DropStakker => drop_stakker(stp),
                 Top::DropAll => drop_all(),
                 Top::SetLogger(lvls) => match stp {
-                    Some(s) => install_logger(s, lvls),
+                    Some(s) => {
+                        ev(lvls.iter().fold("setlogger".to_string(), |a, l| format!("{} {}", a, l)));
+                        install_logger(s, lvls)
+                    }
                     None => bad(51),
                 },
                 Top::SetFilter(lvls) => match stp {
-                    Some(s) => s.set_log_filter(filter_of(lvls)),
+                    Some(s) => {
+                        ev(lvls.iter().fold("setfilter".to_string(), |a, l| format!("{} {}", a, l)));
+                        s.set_log_filter(filter_of(lvls))
+                    }
                     None => bad(52),
                 },
             }
